@@ -1,6 +1,7 @@
 (** C02 - only length-consistent, CRC-valid frames are ever accepted. *)
 From Coq Require Import String ZArith List.
 From NX Require Import Bytes Frame Wire ErrClass Dispatch_proofs C02_proofs C02_detect.
+From NX Require PyLite Src_all Src_serialframe_proofs Src_frame_corollaries.
 Open Scope Z_scope.
 
 (** client decoder: accepted iff SOF, known id, 6 <= declared length <= bytes
@@ -46,6 +47,40 @@ Theorem C02_detect_dispatch : forall fid p e,
   recv_dispatch (xor_bytes (wire (Z.to_N fid) p) e) = DNone.
 Proof. exact corrupted_request_ignored. Qed.
 
+(** ** the same, about the text of serialframe.py as it is now (regenerated abstract
+    syntax run by the PyLite interpreter, any fuel >= 3) *)
+Section OnSource.
+Import PyLite Src_all Src_serialframe_proofs Src_frame_corollaries.
+Open Scope string_scope.
+
+(** ANY byte string: either it is an accepted frame and the decoder returns exactly that
+    id and payload, or nothing is accepted for it and the decoder returns an error object
+    with no payload; it never raises *)
+Theorem C02_decode_decides_src : forall n d,
+  wf_bytes d ->
+  (exists fid p, 0 <= fid /\ accepts d (Z.to_N fid) p /\
+     call_method program (3 + n) sf "frame_decode" [PBytes d] =
+     PyLite.Ok (frame_obj (enum_id fid) p noerr, sf))
+  \/
+  ((forall fid p, ~ accepts d fid p) /\
+   (call_method program (3 + n) sf "frame_decode" [PBytes d] = PyLite.Ok (rejected_hdr, sf) \/
+    call_method program (3 + n) sf "frame_decode" [PBytes d] = PyLite.Ok (rejected_foot, sf))).
+Proof. exact src_frame_decode_decides. Qed.
+
+Theorem C02_detect_src : forall n fid p e,
+  0 <= fid <= 8 -> wf_bytes p -> zlen (wire (Z.to_N fid) p) <= 4095 ->
+  length e = length (wire (Z.to_N fid) p) -> wf_bytes e ->
+  length_intact e -> err_class (bits_of e) ->
+  call_method program (3 + n) sf "frame_decode" [PBytes (xor_bytes (wire (Z.to_N fid) p) e)] = PyLite.Ok (rejected_hdr, sf) \/
+  call_method program (3 + n) sf "frame_decode" [PBytes (xor_bytes (wire (Z.to_N fid) p) e)] = PyLite.Ok (rejected_foot, sf).
+Proof. exact src_corrupted_frame_rejected. Qed.
+
+Theorem C02_source_refines_model : forall n d,
+  call_method program (3 + n) sf "frame_decode" [PBytes d] =
+  PyLite.bind (emb_frame (Frame.frame_decode d)) (fun v => PyLite.Ok (v, sf)).
+Proof. exact frame_decode_spec. Qed.
+End OnSource.
+
 (** non-vacuity: a frame with one flipped payload bit *)
 Example C02_example :
   frame_decode [85; 7; 0; 1; 42; 209; 81]%N = Ok (1, [42]%N) /\
@@ -58,4 +93,6 @@ Print Assumptions C02_decode_total.
 Print Assumptions C02_dispatch_sound.
 Print Assumptions C02_dispatch_complete.
 Print Assumptions C02_detect.
+Print Assumptions C02_decode_decides_src.
+Print Assumptions C02_detect_src.
 Print Assumptions C02_detect_dispatch.
